@@ -668,8 +668,8 @@ func defaultDirectionsCase(idx int64, r *rand.Rand) {
 			go func(i int) { defer wg.Done(); errs[i] = ss.RecvMsg("m") }(i)
 		}
 		// wait (bounded) until every receive is either parked in the transport or has been refused
-		for tries := 0; tries < 200000 && bs.inRecv.Load() < 20; tries++ {
-			runtime.Gosched()
+		for tries := 0; tries < 100000 && bs.inRecv.Load() < 20; tries++ {
+			time.Sleep(100 * time.Microsecond) // generous (10 s): a loaded machine only makes this case slower
 		}
 		granted = int(bs.inRecv.Load())
 		sendErr = ss.SendMsg("m")
